@@ -52,3 +52,8 @@ def TSymList(comps, scalar=False):
 
 def TArray(elem):
     return T('Array', elem)
+
+
+def TRegex(kind):
+    """a compiled regular expression (opaque to the prover; drawn from a small pool concretely)"""
+    return T('Any', 'regex', kind)
